@@ -283,7 +283,63 @@ def rule_c(ctx):
                    '' if ok else 'end sentinel compared with ==: an example equal to it ends the stream')
 
 
+def rule_cp(ctx):
+    """copies of catching stages keep the selection (prefetch, profiling, apply iterate a copy)"""
+    rep = ctx.report
+    for cname, params in (('core.PrefetchDataset', ('catch_filter_exception',)),
+                          ('core.CatchExceptionDataset', ('exceptions',))):
+        cls = ctx.repo.cls(cname)
+        cp = cls.own('copy')
+        init = cls.resolve('__init__')
+        if cp is None or init is None:
+            raise AnalysisError('anchor vanished: %s.copy / __init__' % cname)
+        pa = flow.param_attrs(cls)
+        calls = [n for n in A.walk_local(cp.node) if isinstance(n, ast.Call) and A.dotted(n.func) in (
+            'self.__class__', cls.name, 'type(self)')]
+        if not calls:
+            raise AnalysisError('undecidable shape: %s.copy does not reconstruct the stage' % cname)
+        b = flow.bind(calls[0], init.node)
+        for p in params:
+            e = b.args.get(p)
+            ok = e is not None and any(A.is_self_attr(e, a) for a in pa.get(p, ()))
+            rep.ob('CP', K.key(cls, 'copy', 'copy-keeps-the-selection(%s)' % p), ok, calls[0],
+                   '' if ok else 'copy() does not pass %s on: the copy (which is what prefetch workers, lazy apply and the '
+                   'profiler iterate) no longer filters the selected exception types, so the first filtered example ends '
+                   'the stream with that exception' % p)
+
+
+def rule_e2b(ctx):
+    """nothing but the end sentinel ends the delivery loop: everything the worker queued before the failure is
+    delivered before the stored error is raised"""
+    rep = ctx.report
+    S = STP(ctx)
+    t = S.consumer_try
+    loops = [n for n in t.body if isinstance(n, ast.While)]
+    if len(loops) != 1:
+        rep.ob('E2', 'parallel_utils.single_thread_prefetch::delivery-ends-only-at-the-sentinel', False, t,
+               'delivery loop not found')
+        return
+    exits = [x for x in A.walk_stmts(loops[0].body) if isinstance(x, (ast.Break, ast.Return))]
+    bad = []
+    for x in exits:
+        gs = flow.guards_of(x, loops[0])
+        okx = len(gs) == 1
+        if okx:
+            tt, neg = A.strip_not(gs[0][0])
+            okx = isinstance(tt, ast.Compare) and len(tt.ops) == 1 and isinstance(tt.ops[0], (ast.Is, ast.IsNot)) \
+                and A.is_name(tt.comparators[0], S.sentinel) and isinstance(tt.left, ast.Name)
+        if not okx:
+            bad.append(x)
+    ok = bool(exits) and not bad and A.is_const(loops[0].test, True)
+    rep.ob('E2', 'parallel_utils.single_thread_prefetch::delivery-ends-only-at-the-sentinel', ok, bad[0] if bad else loops[0],
+           '' if ok else 'the delivery loop also ends under `%s`: items the worker had already queued before the failure '
+           '(or before that condition became true) are dropped instead of being delivered first' % (
+               ' and '.join(A.short(g_[0], 50) for g_ in flow.guards_of(bad[0], loops[0])) if bad else A.short(loops[0].test)))
+
+
 def run(ctx):
+    rule_cp(ctx)
+    rule_e2b(ctx)
     rule_e12(ctx)
     rule_e3(ctx)
     rule_c(ctx)
